@@ -346,6 +346,13 @@ class ExprBuilder:
                 nm = rv['ak']
             return E('agg', name=nm, args=[self.operand(o, (), d + 1, at) for o in rv['ops']], site=site, extra=rv,
                      proj=fields_of(p))
+        if k == 'repeat':
+            # [x; N]: every element is x
+            p = [x for x in proj if x != '*']
+            if p and p[0][0] in ('t', 'idx', 'idxv', 'cidx'):
+                return self.operand(rv['op'], tuple(p[1:]), d + 1, at)
+            return E('agg', name='array', args=[self.operand(rv['op'], (), d + 1, at)], site=site, extra=rv,
+                     proj=fields_of(p))
         return E('unknown', name=k, site=site)
 
     def _call(self, c, proj, d):
@@ -816,9 +823,10 @@ def reachable_bodies(facts, body, depth=3, include_closures=True, _seen=None):
 # small path enumerator for bool-returning closures / functions
 
 
-def eval_bool_paths(body, limit=4000):
+def eval_bool_paths_ex(body, limit=4000):
     """enumerate acyclic normal paths entry->return; evaluate the bool result with constant propagation over
-    bool locals. Returns [(conds: [Cond], value)] with value in {True, False, None (not constant)}"""
+    bool locals. Returns [(conds: [Cond], value, site)] with value in {True, False, None (not constant)}; for a
+    non-constant result `site` = (bb, si) of the statement (or (bb, 'term') of the call) that computed it"""
     out = []
     succ = body.succ()
     count = [0]
@@ -831,29 +839,38 @@ def eval_bool_paths(body, limit=4000):
             return env.get(op['pl']['l'])
         return None
 
-    def walk(bb, env, conds, seen):
+    def walk(bb, env, src, conds, seen):
         if count[0] > limit:
             return
         env = dict(env)
-        for s in body.blocks[bb]['st']:
+        src = dict(src)
+        for si, s in enumerate(body.blocks[bb]['st']):
             if s['k'] != 'assign' or s['lhs']['p']:
                 continue
             l = s['lhs']['l']
             rv = s['rv']
             if rv['k'] == 'use':
                 env[l] = val_of(env, rv['op'])
+                op = rv['op']
+                if op['k'] in ('copy', 'move') and not op['pl']['p'] and op['pl']['l'] in src:
+                    src[l] = src[op['pl']['l']]
+                else:
+                    src[l] = (bb, si)
             elif rv['k'] == 'un' and rv['op'] == 'Not':
                 v = val_of(env, rv['a'])
                 env[l] = (not v) if isinstance(v, bool) else None
+                src[l] = (bb, si)
             else:
                 env[l] = None
+                src[l] = (bb, si)
         t = body.blocks[bb]['t']
         if t['k'] == 'return':
             count[0] += 1
-            out.append((list(conds), env.get(0)))
+            out.append((list(conds), env.get(0), src.get(0)))
             return
         if t['k'] == 'call' and not t['dest']['p']:
             env[t['dest']['l']] = None
+            src[t['dest']['l']] = (bb, 'term')
         if t['k'] == 'switch':
             v = val_of(env, t['discr']) if t['ty'] == 'bool' else None
             edges = body.switch_edges(bb)
@@ -870,16 +887,58 @@ def eval_bool_paths(body, limit=4000):
                     takes = (not v) if is_zero_edge and None not in vals else (v if None in vals and '0' not in vals else None)
                     if takes is False:
                         continue
-                    walk(tg, env, conds, seen | {tg})
+                    walk(tg, env, src, conds, seen | {tg})
                 else:
-                    walk(tg, env, conds + [Cond(body, bb, tg)], seen | {tg})
+                    walk(tg, env, src, conds + [Cond(body, bb, tg)], seen | {tg})
             return
         for s in succ[bb]:
             if s not in seen:
-                walk(s, env, conds, seen | {s})
+                walk(s, env, src, conds, seen | {s})
 
-    walk(0, {}, [], {0})
+    walk(0, {}, {}, [], {0})
     return out
+
+
+def eval_bool_paths(body, limit=4000):
+    """[(conds, value)] — see eval_bool_paths_ex"""
+    return [(c, v) for c, v, _ in eval_bool_paths_ex(body, limit)]
+
+
+def necessary_true_facts(body):
+    """comparisons (op, a, b) that hold on EVERY path on which a bool-returning body can return true, whatever the
+    control-flow form (`a && b`, nested ifs, early returns, match, an inlined helper): {repr: cmp}. Also returns the
+    bool conditions (call results etc.) as ('bool', truth, E)."""
+    eb = ExprBuilder(body)
+    common = None
+    for conds, value, site in eval_bool_paths_ex(body):
+        if value is False:
+            continue
+        here = {}
+        for c in conds:
+            cm = c.cmp()
+            if cm:
+                here['%s(%r,%r)' % cm] = cm
+            elif c.kind == 'bool' and c.truth is not None:
+                here['bool:%s:%r' % (c.truth, c.expr)] = ('bool', c.truth, c.expr)
+            elif c.kind == 'discr':
+                here['discr:%r:%s' % (c.expr, sorted(c.variants))] = ('discr', c.expr, c.variants)
+        if value is None and site is not None:
+            bb, si = site
+            if si == 'term':
+                e = eb._call(body.call_at(bb), (), 0)
+            else:
+                e = eb._rvalue(body.blocks[bb]['st'][si]['rv'], (), 0, (bb, si))
+            truth = True
+            while e.kind == 'un' and e.name == 'Not':
+                e = e.args[0]
+                truth = not truth
+            cm = as_cmp(e, truth)
+            if cm:
+                here['%s(%r,%r)' % cm] = cm
+            else:
+                here['bool:%s:%r' % (truth, e)] = ('bool', truth, e)
+        common = here if common is None else {k: v for k, v in common.items() if k in here}
+    return common or {}
 
 
 def resolve_to_root(facts, body, e, depth=4):
@@ -985,3 +1044,118 @@ def field_mutators(facts, adt_suffix, field, skip=None):
                 if rv['k'] == 'rawptr' and 'mut' in str(rv.get('rk', '')).lower() and through(rv['pl']):
                     out.setdefault(b, []).append(('&raw mut', s['ln']))
     return out
+
+
+def effective_sites(facts, body, *names, pred=None):
+    """[(bb, call, owner)]: calls matching `names` in `body` and in closures nested in it; for a call inside a closure,
+    bb is the block of `body` whose call receives that closure (for_each / map / filter ... or an inlined helper),
+    i.e. the point of `body`'s control flow at which the nested call effectively happens. Loops <-> iterator chains
+    and statement <-> closure moves therefore keep their site."""
+    out = []
+    for c in body.find_calls(*names, pred=pred):
+        out.append((c.bb, c, body))
+    # closure -> receiving block in body (transitively)
+    recv_bb = {}
+
+    def walk(b, at):
+        for c in b.find_calls():
+            for cb in closure_args_of_call(facts, b, c):
+                site = at if at is not None else c.bb
+                if cb.npath not in recv_bb:
+                    recv_bb[cb.npath] = (site, cb)
+                    walk(cb, site)
+        # closures constructed but passed later (stored in a local first): fall back to the construction block
+        for bb, si, dp, ops, lhs in _closure_aggs(b):
+            cb = facts.closure_body(dp)
+            if cb is not None and cb.npath not in recv_bb:
+                site = at if at is not None else bb
+                recv_bb[cb.npath] = (site, cb)
+                walk(cb, site)
+    walk(body, None)
+    for site, cb in recv_bb.values():
+        for c in cb.find_calls(*names, pred=pred):
+            out.append((site, c, cb))
+    return out
+
+
+def _closure_aggs(body):
+    return closure_aggregates(body)
+
+
+def necessary_keep_facts(body):
+    """for a filter predicate (returns bool) or a filter_map body (returns Option): the facts that hold whenever the
+    element is KEPT, plus the expression kept (for Option: the payload alternatives). -> (facts: {repr: fact}, payloads)"""
+    rty = body.locals[0]
+    if rty == 'bool':
+        return necessary_true_facts(body), []
+    eb = ExprBuilder(body)
+    common = None
+    payloads = []
+
+    def conds_at(bb):
+        here = {}
+        for c in path_conditions(body, bb):
+            cm = c.cmp()
+            if cm:
+                here['%s(%r,%r)' % cm] = cm
+            elif c.kind == 'bool' and c.truth is not None:
+                here['bool:%s:%r' % (c.truth, c.expr)] = ('bool', c.truth, c.expr)
+            elif c.kind == 'discr':
+                here['discr:%r:%s' % (c.expr, sorted(c.variants))] = ('discr', c.expr, c.variants)
+        return here
+    live = body.live_blocks()
+    for d in body.defs().get(0, []):
+        if d[1] not in live:
+            continue
+        if d[0] == 'assign':
+            rv = d[3]['rv']
+            e = eb._rvalue(rv, (), 0, (d[1], d[2]))
+            for a in (e.args if e.kind == 'phi' else [e]):
+                if a.kind == 'agg' and a.name.endswith('Option::Some'):
+                    here = conds_at(a.site[0] if a.site else d[1])
+                    here.update(conds_at(d[1]))
+                    payloads.append(a.args[0] if a.args else None)
+                    common = here if common is None else {k: v for k, v in common.items() if k in here}
+                elif a.kind == 'agg' and a.name.endswith('Option::None'):
+                    continue
+                elif a.kind == 'call' and a.name.rsplit('::', 1)[-1] in ('then_some', 'then'):
+                    here = conds_at(d[1])
+                    c0 = a.args[0]
+                    truth = True
+                    while c0.kind == 'un' and c0.name == 'Not':
+                        c0 = c0.args[0]
+                        truth = not truth
+                    cm = as_cmp(c0, truth)
+                    if cm:
+                        here['%s(%r,%r)' % cm] = cm
+                    else:
+                        here['bool:%s:%r' % (truth, c0)] = ('bool', truth, c0)
+                    payloads.append(a.args[1] if len(a.args) > 1 else None)
+                    common = here if common is None else {k: v for k, v in common.items() if k in here}
+                else:
+                    # unknown producer (e.g. `?` on an Option, map of an Option): kept under unknown conditions
+                    payloads.append(a)
+                    common = {} if common is None else {}
+        else:
+            c = d[2]
+            e = eb._call(c, (), 0)
+            if c.name in ('then_some', 'then'):
+                here = conds_at(d[1])
+                c0 = e.args[0]
+                truth = True
+                while c0.kind == 'un' and c0.name == 'Not':
+                    c0 = c0.args[0]
+                    truth = not truth
+                cm = as_cmp(c0, truth)
+                if cm:
+                    here['%s(%r,%r)' % cm] = cm
+                else:
+                    here['bool:%s:%r' % (truth, c0)] = ('bool', truth, c0)
+                payloads.append(e.args[1] if len(e.args) > 1 else None)
+                common = here if common is None else {k: v for k, v in common.items() if k in here}
+            elif c.name == 'from_residual':
+                continue
+            else:
+                payloads.append(e)
+                common = {}
+    return common or {}, payloads
